@@ -1,6 +1,7 @@
 package rules
 
 import (
+	"go/token"
 	"fmt"
 	"go/types"
 	"strings"
@@ -361,6 +362,49 @@ func c13R2(c *Ctx, rule string) {
 	chanD := c.P.D(sel.States[leaseCase].Chan)
 	first := strings.Contains(chanD, "time.After(recv.config().LeaderLeaseTimeout)")
 	c.Check(rule, "leaderLoop:first-lease-timer", c.P.InstrPos(sel), "the first lease check fires LeaderLeaseTimeout after becoming leader", first, "timer channel = "+chanD, 1)
+	// the lease timer is ALWAYS armed: every value that can reach the select's
+	// lease case is a time.After(…) channel. A nil channel ("nobody to
+	// replicate to when the term began") never fires – voters added later in
+	// the term are then never lease-checked and an isolated leader keeps its
+	// role and its callers' futures for ever (round-8 seed C17-P)
+	armed := true
+	var walk func(v ssa.Value, depth int)
+	seenV := map[ssa.Value]bool{}
+	walk = func(v ssa.Value, depth int) {
+		if seenV[v] || depth > 6 {
+			return
+		}
+		seenV[v] = true
+		switch x := v.(type) {
+		case *ssa.Phi:
+			for _, e := range x.Edges {
+				walk(e, depth+1)
+			}
+		case *ssa.Call:
+			if c.P.CalleeName(x.Common()) != "time.After" {
+				armed = false
+			}
+		case *ssa.ChangeType:
+			walk(x.X, depth+1)
+		case *ssa.UnOp:
+			// a cell: every store into it
+			if a, ok := x.X.(*ssa.Alloc); ok && x.Op == token.MUL {
+				if refs := a.Referrers(); refs != nil {
+					for _, r := range *refs {
+						if st, ok := r.(*ssa.Store); ok && st.Addr == ssa.Value(a) {
+							walk(st.Val, depth+1)
+						}
+					}
+				}
+			} else {
+				armed = false
+			}
+		default:
+			armed = false
+		}
+	}
+	walk(sel.States[leaseCase].Chan, 0)
+	c.Check(rule, "leaderLoop:lease-timer-always-armed", c.P.InstrPos(sel), "every channel that can be the select's lease case is a time.After(…) timer (never nil, never conditional on the replication set)", armed, "timer channel = "+chanD, 1)
 	arm := engine.SelectArmEntry(sel, leaseCase)
 	if arm == nil {
 		c.Bad(rule, "leaderLoop:lease-arm", c.P.InstrPos(sel), "the lease arm's entry block", "not recognised")
